@@ -22,9 +22,11 @@ fl = env.fl
 KEYS = ["float_type", "decimals", "atol", "rtol", "alias", "logger", "factory_manager"]
 VALUES = {
     "float_type": ["float64", "float32", "float16", "float"],
-    "decimals": list(range(10)),
-    "atol": [0.0, 1e-9, 1e-3, 0.5],
-    "rtol": [0.0, 1e-6, 0.1],
+    # -1 / -1.0: values the library stores without complaint although its helpers cannot use them (a context
+    # that fails half-way through *entering* must still leave every setting as it was)
+    "decimals": list(range(10)) + [-1],
+    "atol": [0.0, 1e-9, 1e-3, 0.5, -1.0],
+    "rtol": [0.0, 1e-6, 0.1, -1.0],
     "alias": ["fl", "", "*", "fz"],
     "logger": ["L0", "L1", "L2"],
     "factory_manager": ["F0", "F1", "F2"],
@@ -237,9 +239,13 @@ class Interp:
             sig = self.do_ctx(k, s)
         elif kind == "assign":
             key, code = s["key"], s["v"]
-            setattr(fl.settings, key, realize(key, code))
-            self.model[key] = code
-            self.emit(f"{k} ASSIGN {key}={code!r}")
+            try:
+                setattr(fl.settings, key, realize(key, code))
+                self.model[key] = code
+                self.emit(f"{k} ASSIGN {key}={code!r}")
+            except Exception as e:  # a (hypothetical) validating setter may refuse the value: then nothing changed
+                self.out.stats.hit("outcomes.assignment_rejected_" + type(e).__name__)
+                self.emit(f"{k} ASSIGN {key}={code!r} rejected {type(e).__name__}")
             if self.ctx_depth:
                 self.out.stats.hit("probes.assign_inside_context")
         elif kind == "obs":
@@ -451,7 +457,9 @@ class Interp:
         if what == "fll":
             d = m["decimals"]
             got = fl.FllExporter().to_string(fl.Triangle("t", 1.0 / 3.0, 2.0 / 3.0, 1.0))
-            return got, f"term: t Triangle {1 / 3:.{d}f} {2 / 3:.{d}f} {1.0:.{d}f}"
+            # the height (1.0) is printed unless Op.is_close(height, 1.0) under the *current* tolerances
+            unit = "" if abs(1.0 - 1.0) <= m["atol"] + m["rtol"] * 1.0 else f" {1.0:.{d}f}"
+            return got, f"term: t Triangle {1 / 3:.{d}f} {2 / 3:.{d}f} {1.0:.{d}f}" + unit
         if what == "vars":
             return True, True
         a = m["alias"]
@@ -473,7 +481,7 @@ class Interp:
         if what == "ruletext":
             w = 0.9995
             r = fl.Rule.create(f"if a is x then b is y with {w}")
-            return r.text, "if a is x then b is y" + ("" if close(w, 1.0) else f" with {w:.{d}f}")
+            return r.text, "if a is x then b is y" + ("" if close(w, 1.0) else f" with {w:.{d}f}")  # np.isclose(a, b): |a-b| <= atol + rtol*|b|
         if what == "termparams":
             h = 0.9995
             t = fl.Triangle("t", 0.0, 0.5, 1.0, height=h)
@@ -482,10 +490,10 @@ class Interp:
             cls = "fuzzylite.term." if a == "" else ("" if a == "*" else a + ".")
             t = fl.Triangle("t", 0.0, 0.5, 1.0)
             return (self.persistent_py.to_string(t).strip(), fl.PythonExporter(formatted=False).to_string(t).strip()), (
-                f"{cls}Triangle('t', 0.0, 0.5, 1.0)",) * 2
+                f"{cls}Triangle('t', 0.0, 0.5, 1.0" + ("" if close(1.0, 1.0) else ", 1.0") + ")",) * 2  # height shown unless is_close(height, 1)
         if what == "fll_p":
             return self.persistent_fll.to_string(fl.Triangle("t", 1.0 / 3.0, 2.0 / 3.0, 1.0)), \
-                f"term: t Triangle {1 / 3:.{d}f} {2 / 3:.{d}f} {1.0:.{d}f}"
+                f"term: t Triangle {1 / 3:.{d}f} {2 / 3:.{d}f} {1.0:.{d}f}" + ("" if close(1.0, 1.0) else f" {1.0:.{d}f}")
         if what == "imp":
             try:
                 self.persistent_imp.term("term: t Tri2 0.0 0.5 1.0")
